@@ -88,6 +88,15 @@ fn handle(req: &serde_json::Value) -> serde_json::Value {
         out.insert("top_level_mark".into(), top.as_u32().into());
         if want_dump {
             out.insert("pre".into(), format!("{:?}", program).into());
+            let (leading, _trailing) = comments.borrow_all();
+            let mut lead: Vec<serde_json::Value> = leading
+                .iter()
+                .map(|(pos, cs)| {
+                    serde_json::json!([pos.0, cs.iter().map(|c| serde_json::json!([format!("{:?}", c.kind), c.text.to_string()])).collect::<Vec<_>>()])
+                })
+                .collect();
+            lead.sort_by_key(|v| v[0].as_u64());
+            out.insert("leading_comments".into(), lead.into());
         }
         let run = |program: &mut Program, options: Options| {
             catch_unwind(AssertUnwindSafe(|| {
